@@ -81,8 +81,9 @@ class Rnd:
     """stands for the ``random`` module (and the names imported from it) inside the module
     under check: a draw is an input of the run (symbolic real / explored choice)"""
 
-    def __init__(self, env, max_perms=6):
+    def __init__(self, env, max_perms=6, fixed=False):
         self.env = env
+        self.fixed = fixed
         self.n = 0
         self.n_shuffle = 0
         self.max_perms = max_perms
@@ -92,6 +93,10 @@ class Rnd:
         return "rnd_%s%d" % (what, self.n)
 
     def random(self):
+        if self.fixed:
+            # a fixed low-discrepancy sequence (ties are broken one given way instead of every way)
+            self.n += 1
+            return ((self.n * 7) % 16) / 16.0
         x = self.env.real(self._name("random"), 0, 1)
         self.env.assume(x < 1)
         return x
@@ -234,7 +239,7 @@ def check_valid(env, meth, sit, r, cg, agent_names, must_host, fp, cap, capacity
 
 def h_heuristics(env):
     from pydcop.dcop.objects import AgentDef
-    p = env.params
+    p = _params(env)
     meth = p["method"]
     mod = env.call(importlib.import_module, "pydcop.distribution." + meth)
     if isinstance(mod, Raised):
@@ -279,7 +284,7 @@ def h_heuristics(env):
         agents.append(AgentDef(a, **kw))
     agentsdef = agents if p.get("agents_as", "list") == "list" else {a.name: a for a in agents}.values()
     hints, must_host = make_hints(p.get("hints", "none"), cg, names)
-    rnd = Rnd(env, p.get("max_perms", 6))
+    rnd = Rnd(env, p.get("max_perms", 6), fixed=p.get("rnd") == "fixed")
     if meth == "adhoc":
         mod.shuffle = rnd.shuffle
         mod.choice = rnd.choice
@@ -309,63 +314,75 @@ def h_heuristics(env):
     check_valid(env, meth, sit, r, cg, names, must_host, fp, cap, meth in CAPACITY_AWARE, info)
 
 
+def _case(method, dcop, graph, agents, **kw):
+    return dict(method=method, dcop=dcop, graph=graph, agents=agents, **kw)
+
+
+def _group(name, cases, **kw):
+    """one job exploring several cases (the case is the first enumerated choice of the harness)"""
+    return dict(group=name, cases=cases, **kw)
+
+
+def _chunk(cases, per, **kw):
+    """group cases into jobs of about ``per`` cases, method by method"""
+    out, by = [], {}
+    for c in cases:
+        by.setdefault(c["method"], []).append(c)
+    for m, cs in by.items():
+        for i in range(0, len(cs), per):
+            part = cs[i:i + per]
+            out.append(_group("%s-%d" % (m, i // per + 1), part, **kw))
+    return out
+
+
+def _params(env):
+    p = dict(env.params)
+    if "cases" in p:
+        p.update(env.choice("case", p["cases"]))
+    return p
+
+
 def _shapes_heur(tier, prop=None):
-    S = []
-
-    def add(method, dcop, graph, agents, **kw):
-        S.append(dict(method=method, dcop=dcop, graph=graph, agents=agents, **kw))
-
     HG, FG, PT, OG = GRAPHS
+    c = _case
+    S = []
     # oneagent: no numbers involved; every graph model, fewer / as many / more agents than computations
-    for g in GRAPHS:
-        add("oneagent", "pair", g, 1)
-        add("oneagent", "chain3", g, 3)
-    add("oneagent", "chain3", HG, 3, hints="must1")
-    add("oneagent", "iso", HG, 4, agents_as="values", via="command-call")
-    add("oneagent", "none", HG, 1)
+    one = [c("oneagent", "pair", g, 1) for g in GRAPHS] + [c("oneagent", "chain3", g, 3) for g in GRAPHS]
+    one += [c("oneagent", "chain3", HG, 3, hints="must1"), c("oneagent", "iso", HG, 4, agents_as="values", via="command-call"),
+            c("oneagent", "none", HG, 1), c("oneagent", "lonely", PT, 2)]
+    if tier == "thorough":
+        one += [c("oneagent", "star4", g, 4, hints="must2") for g in GRAPHS] + [c("oneagent", "dup", g, 3) for g in GRAPHS]
+    S.append(_group("oneagent", one))
     # adhoc (every failed placement re-runs the whole procedure up to 3 times: keep the shapes tiny)
-    add("adhoc", "pair", HG, 2)
-    add("adhoc", "pair", PT, 2)
-    add("adhoc", "single", FG, 2)
-    add("adhoc", "pair", OG, 1)
-    add("adhoc", "lonely", HG, 3)
-    add("adhoc", "pair", HG, 2, hints="empty", agents_as="values")
-    add("adhoc", "pair", HG, 2, hints="must1")
-    add("adhoc", "chain3", HG, 2, hints="must2", max_perms=2)
-    add("adhoc", "pair", HG, 2, hints="host_with")
-    add("adhoc", "pair", FG, 2, hints="secp", max_perms=2)
-    add("adhoc", "pair", FG, 2, hints="secp_must", max_perms=2)
-    add("adhoc", "pair", HG, 2, via="command-call")
-    add("adhoc", "none", HG, 1)
-    # heur_comhost / gh_cgdp
+    S.append(_group("adhoc-small", [
+        c("adhoc", "pair", OG, 1), c("adhoc", "lonely", HG, 3), c("adhoc", "pair", HG, 2, hints="must1"),
+        c("adhoc", "chain3", HG, 2, hints="must2", max_perms=2), c("adhoc", "pair", HG, 2, hints="host_with"),
+        c("adhoc", "pair", FG, 2, hints="secp_must", max_perms=2), c("adhoc", "pair", HG, 2, via="command-call"),
+        c("adhoc", "none", HG, 1)]))
+    S.append(_group("adhoc-pair", [c("adhoc", "pair", HG, 2), c("adhoc", "pair", PT, 2, hints="empty", agents_as="values")]))
+    S.append(_group("adhoc-factor-graph", [c("adhoc", "single", FG, 2), c("adhoc", "pair", FG, 2, hints="secp", max_perms=2)]))
     for meth in ("heur_comhost", "gh_cgdp"):
-        add(meth, "pair", HG, 2, hosting="default")
-        add(meth, "pair", HG, 2, hosting="default0")
-        add(meth, "pair", HG, 2, hosting="positive", agents_as="values")
-        add(meth, "pair", PT, 2, hosting="specific", routes="sym")
-        add(meth, "pair", OG, 2, hosting="specific_positive", routes="sym")
-        add(meth, "chain3", HG, 2, hosting="positive")
-        add(meth, "single", FG, 2, hosting="one_zero")
-        add(meth, "pair", OG, 1, hosting="default")
-        add(meth, "pair", HG, 2, hosting="positive", hints="must1")
-        add(meth, "none", HG, 1, hosting="default")
-        add(meth, "pair", HG, 2, hosting="positive", via="command-call")
+        S.append(_group(meth + "-small", [
+            c(meth, "pair", HG, 2, hosting="default"), c(meth, "pair", HG, 2, hosting="default0"),
+            c(meth, "pair", HG, 2, hosting="positive", agents_as="values"), c(meth, "single", FG, 2, hosting="one_zero"),
+            c(meth, "pair", OG, 1, hosting="default"), c(meth, "pair", HG, 2, hosting="positive", hints="must1"),
+            c(meth, "none", HG, 1, hosting="default"), c(meth, "pair", HG, 2, hosting="positive", via="command-call")]))
+        S.append(_group(meth + "-routes", [c(meth, "pair", PT, 2, hosting="specific", routes="sym"),
+                                           c(meth, "pair", OG, 2, hosting="specific_positive", routes="sym")]))
+        S.append(_group(meth + "-chain3", [c(meth, "chain3", HG, 2, hosting="positive", rnd="fixed")]))
     if tier == "thorough":
         for meth in ("heur_comhost", "gh_cgdp"):
-            add(meth, "chain3", PT, 2, hosting="positive", routes="sym")
-            add(meth, "chain3", PT, 3, hosting="positive")
-            add(meth, "pair", FG, 2, hosting="specific")
-            add(meth, "tern", HG, 3, hosting="one_zero")
-            add(meth, "iso", OG, 2, hosting="default")
-            add(meth, "dup", HG, 3, hosting="specific_positive")
-        add("adhoc", "chain3", PT, 2, max_perms=3)
-        add("adhoc", "pair", FG, 2, max_perms=3)
-        add("adhoc", "tern", HG, 3, hints="must_all")
-        add("adhoc", "iso", OG, 3, max_perms=2)
-        add("adhoc", "chain3", FG, 3, hints="secp_must", max_perms=2)
-        for g in GRAPHS:
-            add("oneagent", "star4", g, 4, hints="must2")
-            add("oneagent", "dup", g, 3)
+            S.append(_group(meth + "-chain3-any-tie-break", [c(meth, "chain3", HG, 2, hosting="positive")]))
+            S.append(_group(meth + "-chain3-pseudotree", [c(meth, "chain3", PT, 2, hosting="positive", routes="sym", rnd="fixed")]))
+            S.append(_group(meth + "-3-agents", [c(meth, "chain3", PT, 3, hosting="positive", rnd="fixed")]))
+            S.append(_group(meth + "-more", [c(meth, "pair", FG, 2, hosting="specific", rnd="fixed"),
+                                             c(meth, "tern", HG, 3, hosting="one_zero", rnd="fixed"),
+                                             c(meth, "iso", OG, 2, hosting="default", rnd="fixed"),
+                                             c(meth, "dup", HG, 3, hosting="specific_positive", rnd="fixed")]))
+        S.append(_group("adhoc-chain3", [c("adhoc", "chain3", PT, 2, max_perms=3)]))
+        S.append(_group("adhoc-pair-factor-graph", [c("adhoc", "pair", FG, 2, max_perms=3)]))
+        S.append(_group("adhoc-more", [c("adhoc", "tern", HG, 3, hints="must_all"), c("adhoc", "iso", OG, 3, max_perms=2),
+                                       c("adhoc", "chain3", FG, 3, hints="secp_must", max_perms=2)]))
     return S
 
 
@@ -381,7 +398,8 @@ Contract(
     assumptions=["hints name declared agents and computations of the graph, a computation at most once in must_host",
                  "footprints, capacities, hosting and route costs are >= 0 and routes symmetric (as the yaml loader builds them); "
                  "communication loads are concrete so that route * load stays linear",
-                 "adhoc: shuffle explores at most max_perms orders of the nodes (2 on retries)"],
+                 "adhoc: shuffle explores at most max_perms orders of the nodes (2 on retries)",
+                 "heur_comhost / gh_cgdp on 3 computations: the random tie-breaks follow one fixed sequence (quick tier)"],
     budget=dict(all_failures=True, quick=dict(max_paths=1500, timeout_s=100), thorough=dict(max_paths=60000, timeout_s=900)),
     desc="oneagent, adhoc, heur_comhost, gh_cgdp on symbolic footprints/capacities/costs: a valid mapping (hosted once, declared agents, "
          "must-host, capacity) or ImpossibleDistributionException",
@@ -497,7 +515,7 @@ def valid_distributions(meth, comps, names, agents, fp, cap):
 
 def h_ilp(env):
     from pydcop.distribution.objects import Distribution, ImpossibleDistributionException
-    p = env.params
+    p = _params(env)
     meth = p["method"]
     prop = p.get("prop", "C23")
     mod = env.call(importlib.import_module, "pydcop.distribution." + meth)
@@ -511,6 +529,20 @@ def h_ilp(env):
     k = env.choice("instance", list(range(p["n"])))
     key = "%s/%s/%s/%d/%s/%d/%d" % (meth, p["dcop"], p["graph"], p["agents"], p.get("style_name", ""), p.get("_seed", 0), k)
     inst = gen_instance(_pyrandom.Random(key), comps, names, p.get("style", {}))
+    if p.get("special") == "pinned-on-second-agent":
+        # one computation of a link pinned (hosting cost 0) on the second agent, its neighbour free and slightly
+        # cheaper to host on the first agent, an expensive route between the two (orientation-independent witness)
+        c1, c2 = list(list(cg.links)[0].nodes)[:2]
+        first, second = names[0], names[1]
+        inst = dict(fp={c: 1 for c in comps}, cap={a: 10 for a in names}, hosting_kind="some_zero", capkind="ample",
+                    default_hosting={a: 5 for a in names}, hosting={first: {c2: 1}, second: {c1: 0, c2: 2}}, default_route=1,
+                    routes={"%s-%s" % tuple(sorted((first, second))): 10}, loads={})
+    if p.get("special") == "doubled-links":
+        # chain z - y - x as a pseudo-tree (every edge is a parent link and a children link): hosting everything
+        # on the expensive agent (3.0) beats paying one doubled edge (1.8 + 0.8 * 2), but not one single edge (2.6)
+        inst = dict(fp={"y": 0, "x": 1, "z": 1}, cap={"a2": 2, "a1": 1, "a3": 0}, hosting_kind="default_pos", capkind="mixed",
+                    default_hosting={"a2": 5, "a1": 2, "a3": 1}, hosting={a: {} for a in names}, default_route=1, routes={},
+                    loads={"x-y": 1, "x-z": 1, "y-z": 1})
     agents = agents_of(inst, names)
     agentsdef = agents if p.get("agents_as", "list") == "list" else {a.name: a for a in agents}.values()
     fp, cap = inst["fp"], inst["cap"]
@@ -612,6 +644,8 @@ def _shapes_ilp(tier, prop="C23"):
         add("oilp_cgdp", "dup", HG, 2, 6, "pos")
         add("oilp_cgdp", "iso", HG, 3, 6, "any")
         add("oilp_cgdp", "single", HG, 1, 3, "any")
+        add("oilp_cgdp", "pair", HG, 2, 1, "zero", special="pinned-on-second-agent")
+        add("oilp_cgdp", "chain3", PT, 3, 1, "pos", special="doubled-links")
         add("ilp_fgdp", "pair", FG, 2, 10, "pos")
         add("ilp_fgdp", "pair", FG, 3, 10, "pos")
         add("ilp_fgdp", "chain3", FG, 2, 10, "pos")
@@ -628,7 +662,7 @@ def _shapes_ilp(tier, prop="C23"):
             add("oilp_cgdp", "chain4", OG, 3, 10, "zero")
             add("ilp_fgdp", "chain3u", FG, 3, 10, "any")
             add("ilp_fgdp", "dup", FG, 3, 10, "room")
-        return S
+        return _chunk(S, 3, prop=prop)
     for meth in ("oilp_cgdp", "ilp_compref"):
         add(meth, "pair", HG, 2, 8, "any")
         add(meth, "chain3", HG, 3, 8, "pos")
@@ -656,7 +690,7 @@ def _shapes_ilp(tier, prop="C23"):
             add(meth, "tern_pair", FG, 3, 4, "room")
         add("ilp_fgdp", "chain3u", FG, 4, 6, "any")
         add("ilp_fgdp", "tern", FG, 3, 6, "zero")
-    return S
+    return _chunk(S, 4, prop=prop)
 
 
 Contract(
@@ -721,7 +755,7 @@ def h_command(env):
     """the real ``pydcop distribute`` back end (commands.distribute.run_cmd) on a yaml file"""
     import argparse
     import yaml
-    p = env.params
+    p = _params(env)
     meth = p["method"]
     algo = p.get("algo")
     graph = p.get("graph") or _ALGO_GRAPH[algo]
@@ -847,7 +881,7 @@ def _shapes_cmd(tier, prop=None):
         add("oilp_cgdp", "chain3", 2, 6, algo="syncbb", style="pos")
         add("ilp_fgdp", "chain3", 3, 6, algo="amaxsum", style="any")
         add("oneagent", "star4", 4, 4, algo="mgm")
-    return S
+    return _chunk(S, 3)
 
 
 Contract(
@@ -860,4 +894,127 @@ Contract(
                  "that need footprints (documented requirement); footprints are the algorithm module's own computation_memory"],
     budget=dict(all_failures=True, quick=dict(max_paths=200, timeout_s=200), thorough=dict(max_paths=2000, timeout_s=1500)),
     desc="pydcop distribute back end on yaml files: prints SUCCESS with a valid mapping, or FAIL / TIMEOUT; never a traceback",
+)
+
+
+# ------------------------------------------------------------------ C23, the SECP-specific methods (on SECP-shaped DCOPs)
+
+# the shape ``pydcop generate secp`` produces: lights l<i> with a unary cost factor c_l<i>, one agent al<i> per light
+# (hosting cost 0 for the light and its cost factor, default 100), models m<j> with a factor c_m<j> over the model
+# variable and >= 2 lights, rules r_<k> over lights and/or models
+SECP_POOL = {
+    "secp1": dict(lights=["l1", "l0"], models={"m0": ["l0", "l1"]}, rules={"r_0": ["l1", "m0"]}),
+    "secp2": dict(lights=["l0", "l2", "l1"], models={"m0": ["l0", "l1"], "m1": ["l2", "l1"]},
+                  rules={"r_0": ["m0"], "r_1": ["l2", "m1"]}),
+    "secp3": dict(lights=["l0", "l1"], models={"m0": ["l1", "l0"]}, rules={"r_0": ["l0"], "r_1": ["m0", "l1", "l0"]}),
+}
+
+
+def build_secp(spec):
+    from pydcop.dcop.dcop import DCOP
+    from pydcop.dcop.objects import Variable, Domain
+    from pydcop.dcop.relations import constraint_from_str
+    s = SECP_POOL[spec]
+    dom = Domain("light", "light", range(0, 3))
+    vs = {n: Variable(n, dom) for n in list(s["lights"]) + list(s["models"])}
+    dcop = DCOP("secp", "min")
+    for v in vs.values():
+        dcop.add_variable(v)
+    allv = list(vs.values())
+    for l in s["lights"]:
+        dcop.add_constraint(constraint_from_str("c_" + l, "%s * 0.5" % l, allv))
+    for m, ls in s["models"].items():
+        dcop.add_constraint(constraint_from_str("c_" + m, "0 if %s == %s else 100" % (m, " + ".join(ls)), allv))
+    for r, scope in s["rules"].items():
+        dcop.add_constraint(constraint_from_str(r, "10 * (%s)" % " + ".join("abs(%s - 1)" % v for v in scope), allv))
+    return dcop
+
+
+def h_secp(env):
+    from pydcop.dcop.objects import AgentDef
+    p = _params(env)
+    meth = p["method"]
+    mod = env.call(importlib.import_module, "pydcop.distribution." + meth)
+    if isinstance(mod, Raised):
+        prove(env, "%s.C23.module-imports" % meth, False, detail=lambda: mod.tb)
+        return
+    if hasattr(mod, "GLPK_CMD"):
+        mod.GLPK_CMD = _cbc_in_place_of_glpk
+    graph = "factor_graph" if meth.endswith("fgdp") else "constraints_hypergraph"
+    gmod = importlib.import_module("pydcop.computations_graph." + graph)
+    cg = env.call(gmod.build_computation_graph, build_secp(p["secp"]))
+    if isinstance(cg, Raised):
+        env.assume(False)
+    comps = [n.name for n in cg.nodes]
+    lights = SECP_POOL[p["secp"]]["lights"]
+    names = ["a" + l for l in lights]
+    k = env.choice("instance", list(range(p["n"])))
+    key = "secp/%s/%s/%d/%d" % (meth, p["secp"], p.get("_seed", 0), k)
+    rng = _pyrandom.Random(key)
+    fp = {c: rng.choice([1, 1, 2, 3]) for c in comps}
+    total = sum(fp.values())
+    capkind = rng.choice(["ample", "tight", "tight", "mixed", "short"])
+    if capkind == "ample":
+        cap = {a: total for a in names}
+    elif capkind == "tight":
+        cap = {a: -(-total // len(names)) + rng.choice([0, 1, 2]) for a in names}
+    elif capkind == "mixed":
+        cap = {a: rng.randint(1, total) for a in names}
+    else:
+        cap = {a: rng.randint(0, 3) for a in names}
+    loads = {}
+
+    def load(a, b):
+        x, y = sorted((a, b))
+        if (x, y) not in loads:
+            loads[(x, y)] = _pyrandom.Random("%s/%s/%s" % (key, x, y)).choice([1, 2, 3])
+        return loads[(x, y)]
+
+    agents = []
+    for l in lights:
+        hc = {l: 0}
+        if "c_" + l in comps:
+            hc["c_" + l] = 0
+        agents.append(AgentDef("a" + l, capacity=cap["a" + l], default_hosting_cost=100, hosting_costs=hc))
+
+    def memory(node):
+        return fp[node.name]
+
+    def comm(node, target):
+        return load(node.name, target)
+
+    kw = dict(hints=None, computation_memory=memory, communication_load=comm)
+    if p.get("via") == "command-call":
+        kw["timeout"] = 3600
+    r = env.call(lambda: mod.distribute(cg, agents, **kw))
+    sit = ["secp-shaped-dcop"] + (["called-as-the-distribute-command-does"] if p.get("via") == "command-call" else [])
+    info = lambda: dict(method=meth, secp=p["secp"], graph=graph, footprints=fp, capacities=cap, capkind=capkind)  # noqa
+    check_valid(env, meth, sit, r, cg, names, {}, fp, cap, True, info)
+
+
+def _shapes_secp(tier, prop=None):
+    big = tier == "thorough"
+    S = []
+    for meth in ("gh_secp_cgdp", "gh_secp_fgdp", "oilp_secp_cgdp", "oilp_secp_fgdp"):
+        ilp = meth.startswith("oilp")
+        n = (4 if ilp else 10) * (5 if big else 1)
+        S.append(dict(method=meth, secp="secp1", graph=None, agents=2, n=n))
+        S.append(dict(method=meth, secp="secp2", graph=None, agents=3, n=n))
+        S.append(dict(method=meth, secp="secp3", graph=None, agents=2, n=n, via="command-call"))
+    return _chunk(S, 3)
+
+
+Contract(
+    "distribution.secp", ["C23"],
+    ["pydcop.distribution.gh_secp_cgdp:distribute", "pydcop.distribution.gh_secp_cgdp:find_candidates",
+     "pydcop.distribution.gh_secp_fgdp:distribute", "pydcop.distribution.oilp_secp_cgdp:distribute",
+     "pydcop.distribution.oilp_secp_cgdp:cg_secp_ilp", "pydcop.distribution.oilp_secp_fgdp:distribute",
+     "pydcop.distribution.oilp_secp_fgdp:fg_secp_ilp"],
+    h_secp, _shapes_secp, mode="E", must_cover=["returned"],
+    trusted=["MILP solver: GLPK_CMD rebound to PuLP's bundled CBC (see distribution.ilp)"],
+    assumptions=["SECP methods: inputs have the structure `pydcop generate secp` produces (documented requirement of these methods): "
+                 "one agent per light with hosting cost 0 for the light and its cost factor, models named c_<model variable>; "
+                 "numeric parameters from a seeded generator; no hints"],
+    budget=dict(all_failures=True, quick=dict(max_paths=200, timeout_s=200), thorough=dict(max_paths=2000, timeout_s=1500)),
+    desc="gh_secp_cgdp, gh_secp_fgdp, oilp_secp_cgdp, oilp_secp_fgdp on SECP-shaped DCOPs: valid mapping within capacity or impossibility",
 )
